@@ -108,7 +108,7 @@ def run_harness(pid, mode, arg, repo, seed, timeout=600):
         p = subprocess.run([VENV_PY, h, mode, str(arg)], capture_output=True, text=True, timeout=timeout, env=env, cwd=repo)
     except subprocess.TimeoutExpired:
         return {"rc": 124, "out": "", "err": "timeout"}
-    return {"rc": p.returncode, "out": p.stdout[-4000:], "err": p.stderr[-4000:]}
+    return {"rc": p.returncode, "out": p.stdout[-6000:], "err": p.stderr[-4000:]}
 
 
 def main():
@@ -251,7 +251,9 @@ def main():
         }
         json.dump(payload, open(rp, "w"), indent=1, default=str)
         h = run_replay(pid, rp, repo, seed)
-        reproduced = bool(h and h["rc"] == 1)
+        reproduced = _reproduced(h)
+        if _replay_crashed(h):
+            checker_errors.append(f"native replay driver crashed (rc={h['rc']}) on {v['oid']}: {h['err'][-300:]}")
         payload["native"] = h
         json.dump(payload, open(rp, "w"), indent=1, default=str)
         kf = v.get("known")
@@ -288,7 +290,9 @@ def main():
         }
         json.dump(payload, open(rp, "w"), indent=1, default=str)
         h = run_replay(pid, rp, repo, seed)
-        if h and h["rc"] == 1:
+        if _replay_crashed(h):
+            checker_errors.append(f"native replay driver crashed (rc={h['rc']}) on {v['oid']}: {h['err'][-300:]}")
+        if _reproduced(h):
             payload = json.load(open(rp))
             payload["native"] = h
             json.dump(payload, open(rp, "w"), indent=1, default=str)
@@ -314,7 +318,9 @@ def main():
                    "model": None, "repo": repo, "native": None}
         json.dump(payload, open(rp, "w"), indent=1, default=str)
         h = run_replay(pid, rp, repo, seed)
-        if h and h["rc"] == 1:
+        if _replay_crashed(h):
+            checker_errors.append(f"native replay driver crashed (rc={h['rc']}) on {u['unit']}: {h['err'][-300:]}")
+        if _reproduced(h):
             payload = json.load(open(rp))
             payload["native"] = h
             json.dump(payload, open(rp, "w"), indent=1, default=str)
@@ -345,7 +351,7 @@ def main():
             elif h and h["rc"] == 127:
                 lines.append(f"NOTE property={pid} bounded stand-in skipped: {h['err']}")
                 bounded = {"skipped": h["err"]}
-            elif h and h["rc"] not in (0, 1):
+            elif h and (h["rc"] not in (0, 1) or not isinstance(bounded, dict)):
                 checker_errors.append(f"bounded stand-in crashed rc={h['rc']}: {h['err'][-300:]}")
             for kf in (bounded or {}).get("known_findings", []):
                 if (pid, kf) in known_ids:
@@ -366,7 +372,10 @@ def main():
                     lines.append(f"VIOLATION property={pid} replay=" + os.path.join(HERE, "replay", pid, "runtime_contract_check.json"))
                     lines.append(f"  run-time check reported finding {kf}, which known_findings.json does not list")
                     json.dump({"property": pid, "obligation": kf, "harness": h, "result": cross}, open(os.path.join(HERE, "replay", pid, "runtime_contract_check.json"), "w"), indent=1)
-            if h and h["rc"] == 1:
+            if h and h["rc"] == 1 and not (isinstance(cross, dict) and (cross.get("native_contract_failures") or cross.get("samples"))):
+                # exit 1 without a reported failing input: an uncaught exception in the driver, not a verdict
+                checker_errors.append(f"cross-check driver crashed (rc=1, no failing input reported): {h['err'][-400:]}")
+            elif h and h["rc"] == 1:
                 # the run-time evaluation of the contracts on the real code found a failing input (bounded, native)
                 rp = os.path.join(HERE, "replay", pid, "runtime_contract_check.json")
                 json.dump({"property": pid, "obligation": "run-time contract evaluation on the real code", "harness": h, "result": cross}, open(rp, "w"), indent=1)
@@ -449,6 +458,15 @@ def main():
     print(f"{pid}: {discharged}/{len(proof_obls)} obligations discharged, {len(refuted)} refuted, {len(undecided) + len(undec_units)} undecided, "
           f"{len(functions)} functions, {time.time() - t0:.1f}s, exit {exit_code}")
     return exit_code
+
+
+def _reproduced(h):
+    """a replay run that REPORTS a failing input (exit 1 and the verdict line); exit 1 from an uncaught exception is a driver crash"""
+    return bool(h and h["rc"] == 1 and "REPLAY-VERDICT: reproduced" in (h.get("out") or ""))
+
+
+def _replay_crashed(h):
+    return bool(h and ((h["rc"] == 1 and not _reproduced(h)) or h["rc"] not in (0, 1, 2, 124, 127)))
 
 
 def _parse_json_tail(h):
